@@ -217,18 +217,24 @@ def init (targetLevel maxGainDb : α) (averageLen : Int) (tRise tFall : α) : Ex
               maxGain := Fn.log (Fn.pow (Fn.ofNat 10) (maxGainDb / Fn.ofNat 20)) },
             { gain := Fn.ofNat 1, ma := MA.init averageLen.toNat })
 
-/-- the gain update of the loop body of `_process`, given `input_power` (moving average + eps):
+/-- the gain update of the loop body of `_process`, given `input_power` (clamped moving average + eps):
 returns the new log-gain `agc.gain` -/
 def gainStep (p : Agc α) (gain inputPower : α) : α :=
   let err := p.target - (Fn.log inputPower + (Fn.ofNat 2 * gain))
   let g1 := if Fn.ofNat 1 < err then gain + p.trise * err else gain + p.tfall * err
   if p.maxGain < g1 then p.maxGain else g1
 
+/-- `input_power = max(agc.maflt(abs2(x[i])), real_t(0)) + dsplib::eps()` given the moving-average output `ma`;
+`dsplib::max(v1, v2)` is `(v1 > v2) ? v1 : v2` (`include/dsplib/math.h`), so a negative recurrent sum (a rounding
+error below zero once a loud signal falls silent), `-0` and NaN all give `+0`: the argument of `log` is `≥ eps()`. -/
+def inputPower (ma : α) : α :=
+  (if Fn.ofNat 0 < ma then ma else Fn.ofNat 0) + eps
+
 /-- loop body of `_process` for a sample of instantaneous power `pw = abs2(x[i])`:
 new state and `gain[i]` -/
 def step (p : Agc α) (s : AgcState α) (pw : α) : AgcState α × α :=
   let r := MA.step s.ma pw
-  let inputPower := r.2 + eps
+  let inputPower := inputPower r.2
   let g := gainStep p s.gain inputPower
   ({ gain := g, ma := r.1 }, Fn.exp g)
 
